@@ -1,0 +1,40 @@
+//go:build verif
+// +build verif
+
+// Package crashpoint lets a verification harness kill the process at, or in the middle of, a file write of the store.
+// It only exists in builds with the tag `verif`; see off.go for the normal build.
+package crashpoint
+
+import "syscall"
+
+// Handler is installed by the harness. site names the write, file the path written to (may be empty) and size the number of
+// bytes about to be written (0 at plain points). It returns -1 to go on, or n >= 0: write the first n bytes only, then die.
+var Handler func(site, file string, size int) int
+
+// Hit is a plain crash point.
+func Hit(site, file string) {
+	if h := Handler; h != nil {
+		if h(site, file, 0) >= 0 {
+			Die()
+		}
+	}
+}
+
+// Cut is a crash point in front of a write of size bytes: (n, true) means write only the first n bytes and call Die.
+func Cut(site, file string, size int) (int, bool) {
+	if h := Handler; h != nil {
+		if n := h(site, file, size); n >= 0 {
+			if n > size {
+				n = size
+			}
+			return n, true
+		}
+	}
+	return 0, false
+}
+
+// Die ends the process the way a power-independent crash does: no deferred calls, no flushing of user-space buffers.
+func Die() {
+	syscall.Kill(syscall.Getpid(), syscall.SIGKILL)
+	select {}
+}
